@@ -107,6 +107,10 @@ def programs():
     return P
 
 
+NEEDS_OUTPUT = {'k': 'ns', 'req': True, 'vt': None, 'vld': None, 'dyn': True, 'pop': True, 'dflt': ['none'],
+                'ports': [['needed', {'k': 'leaf', 'req': True, 'vt': None, 'vld': None, 'dflt': ['none']}]]}
+
+
 def generate(tier, rng, around=None):
     cases = []
     if tier == 'widen':
@@ -129,6 +133,16 @@ def generate(tier, rng, around=None):
             k = {'quick': 250 if not vi else 60, 'thorough': 3000, 'widen': 1000}[tier]
             for i, j in (pairs if len(pairs) <= k else rng.sample(pairs, k)):
                 cases.append(dict(extra, prog=prog, events=life.place(n, [singles[i], singles[j]]) + [['drain', 30]], _prog=name))
+    # a required output that the program never emits: the successful finish is re-routed (StateEntryFailed) to FINISHED unsuccessful,
+    # which must terminate the process exactly like any other way of finishing
+    for name in ('sync3', 'async', 'output'):
+        prog = progs[name]
+        extra = {'ospec': NEEDS_OUTPUT}
+        n = life.count_ticks(prog, extra) + 1
+        cases.append(dict(extra, prog=prog, events=[['drain', 30]], _prog=name + '+missing-output'))
+        for b in range(n + 1):
+            for e in EVENTS:
+                cases.append(dict(extra, prog=prog, events=life.place(n, [(b, e)]) + [['drain', 30]], _prog=name + '+missing-output'))
     return {'cases': cases, 'exhaustive': True,
             'scope': '%d programs x 3 listener variants x every single request (6 kinds) at every callback boundary; pairs sampled' % len(names)}
 
